@@ -183,6 +183,19 @@ def rule_c_d(repo, chk):
     plain = bool(arg_defs) and all(src(n.ast.value).replace(' ', '') in ('self.args[:]', 'list(self.args)', 'self.args', 'self.args.copy()') for n in arg_defs)
     chk.ob('c', st.ref, 'the arguments formatted into the line are the checked `self.args` themselves (a copy), not a re-decoded or otherwise derived list',
            plain, loc(st, arg_defs[0].ast if arg_defs else st.node), detail='; '.join(src(n.ast) for n in arg_defs), discr='formatted-are-checked')
+    # the trailing marker: the last argument gets a ':' in front whenever it could not be told from the middle arguments otherwise — it contains a space, or is empty
+    marks = [n for n in gs.nodes if n.kind == 'stmt' and isinstance(n.ast, ast.Assign) and src(n.ast.targets[0]) == f'{av_}[-1]' and
+             isinstance(n.ast.value, ast.JoinedStr) and n.ast.value.values and isinstance(n.ast.value.values[0], ast.Constant) and n.ast.value.values[0].value == ':']
+    lasts = {f'{av_}[-1]'} | {n.ast.targets[0].id for n in gs.nodes if n.kind == 'stmt' and isinstance(n.ast, ast.Assign) and len(n.ast.targets) == 1 and
+                               isinstance(n.ast.targets[0], ast.Name) and src(n.ast.value) == f'{av_}[-1]'}     # the last argument, also through a local
+    colon_T = pat.test_edge(lambda tt, pol: pol == 'T' and any(src(tt).replace('"', "'") == f"{last}.startswith(':')" for last in lasts))
+    for label, edges in (('space', [e for n in gs.nodes if n.kind == 'test' for e in n.succ for last in lasts if pat.fact_matches(pat.compare_fact(n.ast, e.kind), "' '", ('in',), last)]),
+                         ('empty', [e for n in gs.nodes if n.kind == 'test' for e in n.succ for last in lasts
+                                    if (e.kind == 'F' and src(n.ast) == last) or pat.fact_matches(pat.compare_fact(n.ast, e.kind), last, ('==',), "''")
+                                    or pat.fact_matches(pat.compare_fact(n.ast, e.kind), f'len({last})', ('==',), '0')])):
+        okm = bool(marks) and bool(edges) and all(e.dst in marks or Q.escapes(gs, [e.dst], lambda n: n in marks, avoid_edge=colon_T) is None for e in edges)
+        chk.ob('d', st.ref, f'a last argument that {"contains a space" if label == "space" else "is empty"} is marked as trailing (":" in front) on every path, unless it '
+                            'carries the marker already', okm, loc(st, (marks[0].ast if marks else st.node)), discr=f'trailing-marker:{label}')
     mk = [n for n in walk_no_defs(init.node) if isinstance(n, ast.Assign) and any(src(t) == 'self.args' for t in n.targets)]
     texty = False
     for n in mk:
@@ -286,6 +299,34 @@ def rule_parse(repo, chk):
     chk.ob('f', f.ref, 'the trailing argument is everything after the first " :" and becomes the last argument as it is', ok and app, loc(f, f.node), discr='trailing-verbatim')
     m = repo.func(IRC_MESSAGE, 'Message.from_string')
     chk.touch(m)
+    # the prefix handed to Message is text: parsemsg returns the *parts* (nick, user, host); they are destructured and joined again, never passed on as they are
+    unp = [n for n in walk_no_defs(m.node) if isinstance(n, ast.Assign) and isinstance(n.value, ast.Call) and call_name(n.value) == 'parsemsg' and isinstance(n.targets[0], ast.Tuple)]
+    raw = {n.targets[0].elts[0].id for n in unp if n.targets[0].elts and isinstance(n.targets[0].elts[0], ast.Name)}
+    mk = [c for c in calls_in(m.node) if call_name(c) == 'Message']
+    okp = bool(unp) and bool(mk) and all(not any(k.arg == 'prefix' and isinstance(k.value, ast.Name) and k.value.id in raw and
+                                                  not any(isinstance(w, ast.Assign) and any(isinstance(t, ast.Name) and t.id == k.value.id for t in w.targets) and w not in unp
+                                                          for w in walk_no_defs(m.node)) for k in c.keywords) for c in mk)
+    chk.ob('f', m.ref, 'from_string passes the prefix on as text (the parsed parts are joined again), so that serialising gives the prefix back', okp, loc(m, m.node),
+           discr='from-string-prefix')
+    ini = repo.func(IRC_MESSAGE, 'Message.__init__')
+    gi = ini.cfg()
+    bad = []
+    for n in gi.nodes:
+        if n.kind == 'stmt' and isinstance(n.ast, ast.Assign) and 'self' in pat.stores_attr(n.ast, 'prefix'):
+            v = n.ast.value
+            for c in calls_in(v):
+                if call_name(c) == 'str' and c.args:
+                    x = src(c.args[0])
+                    # str(x) only where x is known not to be None: conditional expression or branch
+                    in_ifexp = any(isinstance(w, ast.IfExp) and c in list(ast.walk(w.body)) and pat.fact_matches(pat.compare_fact(w.test, 'T'), x, ('is not', '!='), 'None')
+                                   for w in ast.walk(v)) or \
+                        any(isinstance(w, ast.IfExp) and c in list(ast.walk(w.orelse)) and pat.fact_matches(pat.compare_fact(w.test, 'F'), x, ('is not', '!='), 'None')
+                            for w in ast.walk(v))
+                    guarded = pat.guarded_by(gi, n, pat.test_edge(lambda tt, pol: pat.fact_matches(pat.compare_fact(tt, pol), x, ('is not', '!='), 'None'))) is None
+                    if not (in_ifexp or guarded):
+                        bad.append(n)
+    chk.ob('c', ini.ref, 'a message built without a prefix (or with prefix=None) has no prefix: None is never turned into the text "None"', not bad,
+           loc(ini, (bad[0].ast if bad else ini.node)), discr='no-prefix-stays-none')
     ok = any(call_name(c) == 'parsemsg' and [src(a) for a in c.args] == [m.params[0]] for c in calls_in(m.node))
     chk.ob('f', m.ref, 'Message.from_string parses exactly the given line', ok, loc(m, m.node), discr='from-string', nontrivial=False)
 
